@@ -1180,6 +1180,111 @@ theorem nested_segments_advance_the_offset_twice :
     compiledHashPanics (some ⟨3, flatSegs [2, 1]⟩) = false := by
   decide
 
+/-! ## Round 6: compensating tamperings — summaries (`Length()`, the header counts, the declared-class set) are not keys
+
+A shortcut keyed on a SUMMARY of the content ("`Length() == 0`: the diff is empty", "the diff declares nothing: no class
+to verify", "the counts add up") leaves every single-field tampering rejected. These theorems say what the hash and the
+checks pin beyond the summary. Harness family `compound:counts:* / difflen:* / classes:* / messages:*` (compound6.go). -/
+
+/-- `StateDiff.Hash()` pins `StateDiff.Length()` (the number the 0.13.2+ block hash commits a second time inside
+`ConcatCounts`): two diffs with the same hash have the same length — the two commitments can never disagree -/
+theorem state_diff_hash_pins_length (d d' : StateDiff) (hw : wfDiff d) (hw' : wfDiff d')
+    (h : stateDiffHash d = stateDiffHash d') : stateDiffLength d = stateDiffLength d' :=
+  stateDiffLength_of_view d d' (stateDiffHash_injective d d' hw hw' h)
+
+/-- exactly which diffs have `Length() = 0`: every section empty, EXCEPT that `StorageDiffs` may list any number of
+addresses with an empty slot map (`Length()` sums the inner lengths) -/
+theorem zero_length_diff_iff (d : StateDiff) : stateDiffLength d = 0 ↔
+    ((∀ e ∈ d.storage, e.2 = []) ∧ d.nonces = [] ∧ d.deployed = [] ∧ d.declaredV0 = [] ∧ d.declaredV1 = [] ∧
+      d.replaced = [] ∧ d.migrated = []) :=
+  stateDiffLength_zero_iff d
+
+/-- a diff whose only content is one address with an empty storage map -/
+def exZeroLenDiff : StateDiff := { (default : StateDiff) with storage := [(0x7e57ab1e, [])] }
+
+/-- … so `Length() = 0` is NOT "the empty diff": the witness has length 0 and another hash than the empty diff (the
+number of contracts with storage updates and the address are hashed). A fast path `if Length() == 0 { commitment of
+the empty diff }` would make the two collide; harness case `compound:difflen:empty-storage-map-added:to-empty-diff` -/
+theorem zero_length_diff_is_not_the_empty_diff :
+    stateDiffLength exZeroLenDiff = 0 ∧ wfDiff exZeroLenDiff ∧ wfDiff default ∧
+    stateDiffHash exZeroLenDiff ≠ stateDiffHash default := by
+  refine ⟨by decide, by unfold wfDiff; decide, by unfold wfDiff; decide, by decide⟩
+
+/-- COMPENSATING CHANGE OF THE DIFF, both Poseidon formats (0.13.2+): a block `B` some node accepted and any `B'` that
+declares the same hash but carries a state diff with another preimage — WHETHER OR NOT its `Length()` differs (one
+entry removed and another added, an entry moved between contracts or sections, an empty storage map added) — is
+accepted by no node. With `state_diff_hash_pins_length`: the length lane of `ConcatCounts` adds nothing the diff
+commitment does not pin, and nothing is pinned by the length alone. -/
+theorem length_preserving_diff_change_rejected {σ : Type} (sem : StateSem σ) (net : Net) (c c' d : Chain σ) (B B' : Bundle)
+    (hacc : accept sem net c B = .ok c')
+    (hu : inUnverifiable net B.block.header.number = false)
+    (hu' : inUnverifiable net B'.block.header.number = false)
+    (hf : dispatch net B.block.header.number B.block.header.version = some .v0134 ∨
+          dispatch net B.block.header.number B.block.header.version = some .v0132)
+    (hsame : B'.block.header.hash = B.block.header.hash)
+    (hdiff : stateDiffFlat B'.su.diff ≠ stateDiffFlat B.su.diff) :
+    ∃ e, accept sem net d B' = .error e :=
+  diff_change_rejected' sem net c c' d B B' hacc hu hu' hf hsame hdiff
+
+/-- COMPENSATING HEADER COUNTS, all four formats: `B` accepted, `B'` declares the same hash and has another
+`TransactionCount`, or (all but pre-0.7) another `EventCount` — in particular the two exchanged, or one unit moved
+from one to the other so that their sum stays — is accepted by no node, whatever is done to the body at the same time -/
+theorem compensating_counts_rejected {σ : Type} (sem : StateSem σ) (net : Net) (c c' d : Chain σ) (B B' : Bundle)
+    (hacc : accept sem net c B = .ok c')
+    (hu : inUnverifiable net B.block.header.number = false)
+    (hu' : inUnverifiable net B'.block.header.number = false)
+    (hsame : B'.block.header.hash = B.block.header.hash)
+    (hcnt : B'.block.header.txCount ≠ B.block.header.txCount ∨
+            (dispatch net B.block.header.number B.block.header.version ≠ some .pre07 ∧
+             B'.block.header.eventCount ≠ B.block.header.eventCount)) :
+    ∃ e, accept sem net d B' = .error e := by
+  cases hacc' : accept sem net d B' with
+  | error e => exact ⟨e, rfl⟩
+  | ok d' =>
+    obtain ⟨ov, _, hh⟩ := (accept_ok sem net c c' B hacc).1.hash hu
+    obtain ⟨ov', _, hh'⟩ := (accept_ok sem net d d' B' hacc').1.hash hu'
+    rw [hsame] at hh'
+    obtain ⟨c1, c2⟩ := sameHash_counts net B.block B'.block B.su.diff B'.su.diff ov ov' _ hh hh'
+    rcases hcnt with h | ⟨hf, h⟩
+    · exact absurd c1.symm h
+    · exact absurd (c2 hf).symm h
+
+/-- THE CLASS LIST IS VERIFIED INDEPENDENTLY OF THE DIFF: `VerifyClassHashes` walks `newClasses`. A bundle whose
+`newClasses` holds — at any position, declared by the state diff or not, even when the diff declares NOTHING — one Sierra
+definition that does not hash to its key fails `SanityCheckNewHeight` with the class-hash error (given the two cheap
+cross checks pass), hence is stored by no node. Harness: `compound:classes:undeclared-definition-under-wrong-key`. -/
+theorem class_list_verified_independently_of_the_diff {σ : Type} (sem : StateSem σ) (net : Net) (c : Chain σ) (B : Bundle)
+    (k : Nat) (cd : ClassDef) (hm : (k, cd) ∈ B.classes) (hs : cd.cairo0 = false) (hbad : cd.computedHash ≠ k) :
+    (B.block.header.hash = B.su.blockHash → B.block.header.stateRoot = B.su.newRoot → sanityCheck net B = .error .classHash) ∧
+    ∃ e, accept sem net c B = .error e := by
+  refine ⟨sanityCheck_classHash_of_bad_entry net B k cd hm hs hbad, ?_⟩
+  cases hacc : accept sem net c B with
+  | error e => exact ⟨e, rfl⟩
+  | ok c' =>
+    have hv := (accept_ok sem net c c' B hacc).1.classes
+    simp only [verifyClassHashes, List.all_eq_true] at hv
+    have := hv (k, cd) hm
+    simp [hs] at this
+    exact absurd this hbad
+
+/-! ### the code as it is since fixes d902b5f and 302c657 (`classVersionLengthLimited = compiledHashGuarded = true`) -/
+
+/-- FULL strength on the code as it is (fix d902b5f: `SierraClass.Hash()` fails for a version longer than 15 bytes):
+two Sierra definitions `VerifyClassHashes` can accept under the same class hash have the same `SemanticVersion`, byte for
+byte. (`class_version_committed_partial` / `class_version_wrap_accepted` remain as the statements about the variant
+before the fix; the harness sig `sierra-class-version-wraps-mod-p` is in `fixed`: an unlisted violation if it returns.) -/
+theorem class_version_committed (c c' : SierraCls) (x : Term)
+    (h : sierraClassHash c = some x) (h' : sierraClassHash c' = some x) : c.semanticVersion = c'.semanticVersion :=
+  class_version_committed_when_limited c c' x h h'
+
+/-- the code as it is (fix 302c657): the V2-hash step of `storeCasmHashMetadataV1` never panics, whatever compiled class
+the feeder delivered — a malformed one is an error, the block is rejected and the batch dropped -/
+theorem store_never_panics_on_the_compiled_class (c : Option CompiledShape) :
+    casmV2HashOutcome c ≠ .panic ∧ (compiledHashPanics c = true → casmV2HashOutcome c = .error) := by
+  refine ⟨no_casm_hash_panic_when_guarded c, fun hp => ?_⟩
+  show casmV2HashOutcomeWith true c = .error
+  simp [casmV2HashOutcomeWith, hp]
+
 /-! ## Non-vacuity: the hypotheses above are satisfiable -/
 
 section Examples
@@ -1344,6 +1449,28 @@ example : (match casmStep [] { (default : Header) with version := asciiBytes "0.
       { (default : StateDiff) with declaredV1 := [(7, .felt 9)] } [(7, ⟨false, 7, false⟩)] (fun _ => 0)).toOption.isSome = true ∧
     (casmStep [] { (default : Header) with version := asciiBytes "0.14.1", number := 4 }
       { (default : StateDiff) with declaredV1 := [(7, .felt 9)] } [(7, ⟨false, 7, true⟩)] (fun _ => 0)).toOption.isSome = true := by decide
+
+/-- round 6: the example block with (a) an EMPTY storage map added to its diff — `Length()` unchanged —, (b) its nonce entry
+replaced by a storage entry — `Length()` unchanged —, (c) its two header counts changed with the same sum (hash kept each time)
+is rejected by the hash check; (d) with a Sierra definition under a wrong key in `newClasses`, which the diff does not
+declare, by the class check. Hypotheses of `length_preserving_diff_change_rejected`, `compensating_counts_rejected`,
+`class_list_verified_independently_of_the_diff`, `state_diff_hash_pins_length`. -/
+def exDiffEmptyMap : StateDiff := { exDiff with storage := exDiff.storage ++ [(0x7e57ab1e, [])] }
+def exDiffNonceToSlot : StateDiff := { exDiff with nonces := [], storage := [(0x101, [(1, .felt 5), (2, .felt 9)])] }
+example : stateDiffLength exDiffEmptyMap = stateDiffLength exDiff ∧ stateDiffLength exDiffNonceToSlot = stateDiffLength exDiff ∧
+    stateDiffFlat exDiffEmptyMap ≠ stateDiffFlat exDiff ∧ stateDiffFlat exDiffNonceToSlot ≠ stateDiffFlat exDiff ∧
+    (offer exSem exNet exChain { exBundle with su := { exBundle.su with diff := exDiffEmptyMap } }).2 = some .blockHash ∧
+    (offer exSem exNet exChain { exBundle with su := { exBundle.su with diff := exDiffNonceToSlot } }).2 = some .blockHash ∧
+    (offer exSem exNet exChain { exBundle with block := { exBlock with header := { exBlock.header with txCount := 2, eventCount := 0 } } }).2 = some .blockHash ∧
+    (offer exSem exNet exChain { exBundle with classes := exBundle.classes ++ [(11, ⟨false, 12, false⟩)] }).2 = some .classHash ∧
+    exBundle.su.diff.declaredV1 = [] := by decide
+example : wfDiff exDiffEmptyMap ∧ wfDiff exDiffNonceToSlot := by constructor <;> (unfold wfDiff; decide)
+
+/-- `class_version_committed`, `store_never_panics_on_the_compiled_class`: the example class hashes in the code as it is; the
+malformed compiled class of `store_panics_on_malformed_compiled_class` is now an error -/
+example : (sierraClassHash exSierra).isSome = true ∧ sierraClassHash { exSierra with semanticVersion := exWrapClassVersion } = none ∧
+    casmV2HashOutcome (some ⟨3, flatSegs [2, 2]⟩) = .error ∧ casmV2HashOutcome none = .error ∧
+    casmV2HashOutcome (some ⟨4, flatSegs [2, 2]⟩) = .value := by decide
 
 end Examples
 
